@@ -101,6 +101,14 @@ func (t *ReuseConnTransport) ExchangeContext(ctx context.Context, m []byte) (*dn
 			errs = append(errs, err)
 			if !isNewConn && retry <= 5 && !ctxIsDone(ctx) {
 				retry++
+				if retry == 3 {
+					// Three reused connections in a row were dead. Most
+					// likely the server dropped them all (e.g. it was
+					// restarted). Do not spend the remaining attempts on
+					// the idle connections, there may be more of them than
+					// attempts. Drop them, the next attempt dials.
+					t.dropIdleConns()
+				}
 				continue // retry if c is a reused connection.
 			}
 			return nil, joinErr(errs)
@@ -246,6 +254,18 @@ func (t *ReuseConnTransport) getIdleConn() (*reusableConn, error) {
 		return c, nil
 	}
 	return nil, nil
+}
+
+// dropIdleConns closes all idle connections.
+func (t *ReuseConnTransport) dropIdleConns() {
+	t.m.Lock()
+	defer t.m.Unlock()
+	for c := range t.idleConns {
+		delete(t.idleConns, c)
+		delete(t.conns, c)
+		c.exitIdle() // stops its idle timer
+		c.c.Close()
+	}
 }
 
 // Close closes ReuseConnTransport and all its connections.
